@@ -10,5 +10,5 @@ Extraction "../ocaml/gen/C03/model.ml" keep_types
   real_caps mbase_decode msg_decode factory
   mb_encode msg_encode msg_encode_str
   render_default canonical
-  is_bytes c03_wf c03_pseudo c03_factory atoi_ub atoi_ub_orig atoi_val msg_ub dt_ub chksum_ub calc_chksum dec_class_gen dec_class enc_class
+  is_bytes c03_wf c03_pseudo c03_factory c03_factory_orig atoi_ub atoi_ub_orig atoi_val msg_ub dt_ub chksum_ub calc_chksum dec_class_gen dec_class enc_class
   obs_of_word c03_ok c03_seq_exc_ok c03_seq_msg_ok.
